@@ -1,0 +1,29 @@
+//go:build verif
+// +build verif
+
+package fscache
+
+// VerifJournals returns copies of the four change journals (verification builds only).
+func (c *Cache) VerifJournals() (remove, removeAll, mkdirAll, write []string) {
+	c.changes.removeMU.RLock()
+	for k := range c.changes.remove {
+		remove = append(remove, k)
+	}
+	c.changes.removeMU.RUnlock()
+	c.changes.removeAllMU.RLock()
+	for k := range c.changes.removeAll {
+		removeAll = append(removeAll, k)
+	}
+	c.changes.removeAllMU.RUnlock()
+	c.changes.mkdirAllMU.RLock()
+	for k := range c.changes.mkdirAll {
+		mkdirAll = append(mkdirAll, k)
+	}
+	c.changes.mkdirAllMU.RUnlock()
+	c.changes.writeMU.RLock()
+	for k := range c.changes.write {
+		write = append(write, k)
+	}
+	c.changes.writeMU.RUnlock()
+	return
+}
